@@ -304,6 +304,43 @@ func genC08(c *Ctx) {
 			}
 		}
 	}
+	// (b') directed: zero-size samples, the last one ending exactly at the end of the input (a Read there reports EOF)
+	for _, hl := range []int{8, 16} {
+		for pre := 0; pre <= 3; pre += 3 {
+			sizes := []int{5, 0, 3, 0}
+			sz := hl + 8
+			F := make([]byte, pre)
+			if hl == 8 {
+				F = append(F, 0, 0, 0, byte(sz), 'm', 'd', 'a', 't')
+			} else {
+				F = append(F, 0, 0, 0, 1, 'm', 'd', 'a', 't', 0, 0, 0, 0, 0, 0, 0, byte(sz))
+			}
+			F = append(F, 1, 2, 3, 4, 5, 6, 7, 8)
+			tl := fmt.Sprintf("4:10 - 1:4:1 5,0,3,0 %d - -", pre+hl)
+			for _, iv := range [][2]int{{4, 4}, {2, 2}, {1, 4}, {3, 4}, {2, 4}, {1, 2}} {
+				var want []byte
+				o := pre + hl
+				for k := 1; k <= 4; k++ {
+					if k >= iv[0] && k <= iv[1] {
+						want = append(want, F[o:o+sizes[k-1]]...)
+					}
+					o += sizes[k-1]
+				}
+				for _, wl := range []int{0, 1, 4, 4096} {
+					for _, lazy := range []string{"0", "1"} {
+						req := fmt.Sprintf("md.copyt %s %s %d %d %d %d %d %d %s", tl, lazy, pre, hl, sz, wl, iv[0], iv[1], hx(F))
+						r := execC08(req)
+						c.Case(req, r)
+						c.Eval(req)
+						c.Count("copy-tables-zero-size")
+						if r != hx(want) {
+							c.Fail("C08-copy-samples", "CopySampleData over a sample interval != concatenated sample bytes", clip(req), clip(r), clip(hx(want)))
+						}
+					}
+				}
+			}
+		}
+	}
 	// (c) whole files
 	var files [][]byte
 	var names []string
